@@ -171,6 +171,12 @@ Qed.
 Theorem split_exhausted : forall c b, recv c b tt [] = Err EEOF tt [].
 Proof. intros c b. unfold recv. rewrite recv_k_eof; auto using bufio_size_pos. Qed.
 
+Theorem split_exhausted_all : forall c b, recv_all c b [] = [IErr EEOF].
+Proof.
+  intros c b. unfold recv_all, recv_all_from. cbn [length recv_all_loop]. rewrite split_exhausted.
+  cbn [same_as_prev]. rewrite split_exhausted. cbn. reflexivity.
+Qed.
+
 Lemma split_progress c b : progress_ok (recv c b) (fun _ => True).
 Proof.
   intros [] s _. destruct (recv_cases c b s) as [[r [rest [-> [_ ->]]]]|[_ ->]].
